@@ -114,6 +114,7 @@ func verifyFunc(p *Program, fn *ssa.Function, fc *FuncContract) (u *UnitResult) 
 			fr.params[fv.Name()] = v
 		}
 	}
+	fr.preRegisterHeaps(fn, 0, map[*ssa.Function]bool{})
 	fr.entry = st.clone()
 	u.entry = fr.entry
 	// modifies
@@ -460,6 +461,58 @@ func (fr *frame) pointeeFacts(v T, st *state, next0 string, depth int) {
 	for i := 0; i < stt.NumFields(); i++ {
 		if _, isPtr := unalias(stt.Field(i).Type()).Underlying().(*types.Pointer); isPtr {
 			fr.pointeeFacts(vc.getField(obj, i), st, next0, depth+1)
+		}
+	}
+}
+
+// preRegisterHeaps registers the heap arrays of every pointer / slice / map type the function (and its closures,
+// and the pure callees that get inlined) mentions, before any loop is cut: the frame facts emitted at a loop head
+// ("heaps the loop does not write are unchanged") range over the registered heaps, so a heap first touched
+// after the head would otherwise come out of the loop unconstrained.
+func (fr *frame) preRegisterHeaps(fn *ssa.Function, depth int, seen map[*ssa.Function]bool) {
+	if fn == nil || seen[fn] || depth > 3 {
+		return
+	}
+	seen[fn] = true
+	vc := fr.vc
+	reg := func(t types.Type) {
+		defer func() { recover() }()
+		switch u := unalias(t).Underlying().(type) {
+		case *types.Pointer:
+			if _, isStruct := unalias(u.Elem()).Underlying().(*types.Struct); isStruct {
+				fr.heapNameForPointee(u.Elem())
+			} else if _, isArr := unalias(u.Elem()).Underlying().(*types.Array); isArr {
+				fr.heapNameForPointee(u.Elem())
+			} else if _, isBasic := unalias(u.Elem()).Underlying().(*types.Basic); isBasic {
+				fr.heapNameForPointee(u.Elem())
+			}
+		case *types.Slice:
+			vc.heapArr(vc.sortOf(u.Elem()))
+		case *types.Map:
+			vc.heapDom(vc.sortOf(u.Key()))
+			vc.heapVal(vc.sortOf(u.Key()), vc.sortOf(u.Elem()))
+		}
+	}
+	for _, p := range fn.Params {
+		reg(p.Type())
+	}
+	for _, b := range fn.Blocks {
+		for _, in := range b.Instrs {
+			if v, ok := in.(ssa.Value); ok {
+				reg(v.Type())
+			}
+			if ci, ok := in.(ssa.CallInstruction); ok {
+				if callee := ci.Common().StaticCallee(); callee != nil {
+					if fc := vc.P.contractFor(callee); fc != nil && fc.Pure || isWrapper(callee) {
+						fr.preRegisterHeaps(callee, depth+1, seen)
+					}
+				}
+			}
+			if mc, ok := in.(*ssa.MakeClosure); ok {
+				if cf, ok := mc.Fn.(*ssa.Function); ok {
+					fr.preRegisterHeaps(cf, depth+1, seen)
+				}
+			}
 		}
 	}
 }
